@@ -14,7 +14,7 @@ from ..cfg import CFG
 from ..effects import Effects
 from ..frontend import AnalysisError, walk_function
 from ..report import norm_text
-from ..witness import witness, twin
+from ..witness import witness, twin, repair
 
 LEVEL = "other"
 MOD = "pylife.core.broadcaster"
@@ -1346,6 +1346,17 @@ def variants():
     out.append(witness("several-level branch first, then index.name for the one-level case", PATH, multi_first_dot_name, "R-C13-15"))
 
     MS = "src/pylife/strength/meanstress.py"
+
+    def five_segment_keeps_aligned(tree):
+        f = find_func(tree, "HaighDiagram.five_segment")
+        for st in ast.walk(f):
+            if isinstance(st, ast.Assign) and isinstance(st.targets[0], ast.Tuple) and isinstance(st.value, ast.Call) and \
+                    isinstance(st.value.func, ast.Attribute) and st.value.func.attr == "broadcast":
+                st.targets[0].elts[1] = ast.Name(id="haigh", ctx=ast.Store())
+                return True
+        return False
+    out.append(repair("five_segment fills the diagram that the broadcast returned together with the slopes", MS, five_segment_keeps_aligned,
+                      "R-C13-16"))
 
     def goodman_positional(tree):
         f = find_func(tree, "HaighDiagram.fkm_goodman")
